@@ -174,7 +174,7 @@ Qed.
 Theorem filter_requests_tsync : forall o fv ok,
   In (ALoad fv ok) (fst (run o)) ->
   fv = [VStruct "seccomp.Filter"%string
-          [("NoNewPrivs"%string, flag_nnp_var); ("Flag"%string, VNum tsync); ("Policy"%string, VOpaque "Seccomp"%string)]].
+          [("Flag"%string, VNum tsync); ("NoNewPrivs"%string, flag_nnp_var); ("Policy"%string, VOpaque "Seccomp"%string)]].
 Proof.
   intros o fv ok. cases o; intro Hin; cbn [In] in Hin;
   repeat (destruct Hin as [Hin|Hin]; [try discriminate Hin; inversion Hin; reflexivity|]); contradiction.
